@@ -23,11 +23,31 @@ pub fn panic_msg(p: Box<dyn std::any::Any + Send>) -> String {
     }
 }
 
-/// poll a future once with a noop waker; a panic inside poll is returned as Err
+struct WakeFlag(std::sync::atomic::AtomicBool);
+impl std::task::Wake for WakeFlag {
+    fn wake(self: Arc<Self>) {
+        self.0.store(true, Ordering::SeqCst);
+    }
+    fn wake_by_ref(self: &Arc<Self>) {
+        self.0.store(true, Ordering::SeqCst);
+    }
+}
+
+/// poll a future once; a panic inside poll is returned as Err.  The waker only records that it was used: a poll
+/// that returns Pending WITHOUT having woken (or kept) the waker would never be polled again by an executor that
+/// waits for wake-ups - this executor polls again regardless, so that case is reported as an error instead
+/// (the harness's own user functions wake before they return Pending).
 pub fn poll_once<T>(fut: &mut Pin<Box<dyn Future<Output = T> + '_>>) -> Result<Poll<T>, String> {
-    let waker = Waker::noop();
-    let mut cx = Context::from_waker(waker);
-    catch_unwind(AssertUnwindSafe(|| fut.as_mut().poll(&mut cx))).map_err(panic_msg)
+    let flag = Arc::new(WakeFlag(std::sync::atomic::AtomicBool::new(false)));
+    let waker = Waker::from(flag.clone());
+    let mut cx = Context::from_waker(&waker);
+    let r = catch_unwind(AssertUnwindSafe(|| fut.as_mut().poll(&mut cx))).map_err(panic_msg)?;
+    drop(cx);
+    drop(waker);
+    if r.is_pending() && !flag.0.load(Ordering::SeqCst) && Arc::strong_count(&flag) == 1 {
+        return Err("the evaluation returned Pending without waking or keeping its waker: an executor that waits for wake-ups would never poll it again".into());
+    }
+    Ok(r)
 }
 
 /// run a future to completion on the calling thread (bounded number of polls)
@@ -150,6 +170,66 @@ impl UserFunction for ModelFn {
     }
     fn cacheable(&self) -> bool {
         self.cacheable
+    }
+}
+
+// ---- stateless user functions: unit structs, as the library's documentation writes its examples.  A Box of a
+// zero-sized type does not allocate, so all of them "live" at the same address; they cannot hold a reference to
+// the log, so the evaluation's log is found through a thread-local (the replay engines are single-threaded).
+thread_local! {
+    pub static ZLOG: std::cell::RefCell<Option<Arc<Log>>> = std::cell::RefCell::new(None);
+}
+fn zlog(func: &str, arg: &Value) {
+    ZLOG.with(|z| {
+        if let Some(log) = z.borrow().as_ref() {
+            let mut entries = log.entries.lock().unwrap();
+            let ordinal = entries.iter().filter(|e| e.func == func).count() + 1;
+            let seq = log.seq.fetch_add(1, Ordering::SeqCst);
+            entries.push(Invocation { ev: EV.try_with(|v| *v).unwrap_or(0), seq, func: func.to_string(), arg: arg.clone(), ordinal });
+        }
+    });
+}
+pub struct ZstDouble;
+pub struct ZstNegate;
+#[async_trait]
+impl UserFunction for ZstDouble {
+    async fn call(&self, params: Value) -> FunctionResult {
+        zlog("zdouble", &params);
+        match params {
+            Value::Int(i) => i.checked_mul(2).map(Value::Int).ok_or_else(|| anyhow::anyhow!("not a small int")),
+            _ => Err(anyhow::anyhow!("not a small int")),
+        }
+    }
+    fn name(&self) -> &'static str {
+        "zdouble"
+    }
+}
+#[async_trait]
+impl UserFunction for ZstNegate {
+    async fn call(&self, params: Value) -> FunctionResult {
+        zlog("znegate", &params);
+        match params {
+            Value::Int(i) => i.checked_neg().map(Value::Int).ok_or_else(|| anyhow::anyhow!("not a small int")),
+            _ => Err(anyhow::anyhow!("not a small int")),
+        }
+    }
+    fn name(&self) -> &'static str {
+        "znegate"
+    }
+}
+
+/// a user function of the model as a boxed trait object: the scripted ModelFn, or one of the stateless unit structs
+pub fn boxed_fn(j: &J, log: Arc<Log>) -> Result<Box<dyn UserFunction + Send + Sync + 'static>, String> {
+    match uncps(&j["name"])?.as_str() {
+        "zdouble" => {
+            ZLOG.with(|z| *z.borrow_mut() = Some(log));
+            Ok(Box::new(ZstDouble))
+        }
+        "znegate" => {
+            ZLOG.with(|z| *z.borrow_mut() = Some(log));
+            Ok(Box::new(ZstNegate))
+        }
+        _ => Ok(Box::new(modelfn_from_model(j, log)?)),
     }
 }
 
